@@ -6,11 +6,13 @@ import (
 	"testing"
 
 	"github.com/pip-services3-gox/pip-services3-expressions-gox/calculator"
+	"github.com/pip-services3-gox/pip-services3-expressions-gox/calculator/functions"
 	cparsers "github.com/pip-services3-gox/pip-services3-expressions-gox/calculator/parsers"
 	rio "github.com/pip-services3-gox/pip-services3-expressions-gox/io"
 	"github.com/pip-services3-gox/pip-services3-expressions-gox/mustache"
 	mparsers "github.com/pip-services3-gox/pip-services3-expressions-gox/mustache/parsers"
 	"github.com/pip-services3-gox/pip-services3-expressions-gox/tokenizers"
+	"github.com/pip-services3-gox/pip-services3-expressions-gox/variants"
 	"pgregory.net/rapid"
 	"verif/pbt/evid"
 )
@@ -21,6 +23,19 @@ type c05Step struct {
 	Input   string `json:"input"`
 	Abort   int    `json:"abort"`   // tokenizers: fetch only this many tokens (-1 = all)
 	HasNext int    `json:"hasNext"` // tokenizers: HasNextToken calls before every NextToken
+	Fn      int    `json:"fn"`      // calculator: which user function list the evaluation gets (Fx, Gx differ per list)
+}
+
+// userFunctions returns function list j: Fx() = 10*j+1, Gx(a) = [j, a].
+func userFunctions(j int) functions.IFunctionCollection {
+	fc := functions.NewDefaultFunctionCollection()
+	fc.Add(functions.NewDelegatedFunction("Fx", func(p []*variants.Variant, o variants.IVariantOperations) (*variants.Variant, error) {
+		return variants.VariantFromInteger(10*j + 1), nil
+	}))
+	fc.Add(functions.NewDelegatedFunction("Gx", func(p []*variants.Variant, o variants.IVariantOperations) (*variants.Variant, error) {
+		return variants.VariantFromArray(append([]*variants.Variant{variants.VariantFromInteger(j)}, p...)), nil
+	}))
+	return fc
 }
 
 type c05Case struct {
@@ -121,8 +136,11 @@ func (in *c05Instance) run(st c05Step) (obs string) {
 			obs = errRepr(err)
 			if err == nil {
 				obs += " | " + exprTokensRepr(in.calc.ResultTokens())
-				v, e := in.calc.EvaluateUsingVariables(makeVars(c05Vars))
+				v, e := in.calc.EvaluateUsingVariablesAndFunctions(makeVars(c05Vars), userFunctions(st.Fn))
 				obs += " | " + resultRepr(v, e)
+				// automatic variables are Null in a fresh and in a reused calculator alike
+				v, e = in.calc.Evaluate()
+				obs += " | defaults: " + resultRepr(v, e)
 			}
 		case "mustacheparser":
 			err := in.mp.ParseString(st.Input)
@@ -181,6 +199,7 @@ var c05Pool = []string{
 	"{{", "}}", "{{{", "}}}", "{{a}}", "{{{a}}}", "x{{a}}y", "{{#a}}in{{/a}}", "{{^b}}no{{/b}}", "{{#if a}}1{{/if}}", "{{! c }}t",
 	"a", "abc", "A1_b", "é", "中文", "1", "12.5", ".5", "-3", "1e5", "2.5E-3", "'s'", "'a''b'", "\"q\"", "'é'", "/* c */ 1", "# c\n1", "x // y",
 	" ", " \t\n ", "a b", "a\nb\r\nc", "a+b*2", "(a+b)*x", "d[1]", "Min(a,b,x)", "a IS NOT NULL", "x NOT IN d", "NOT f", "a LIKE c", "-a", "c+c",
+	"c = 'x'", "c = 'X'", "'abc' + c", "'ABC' + c", "{{Name}} x", "{{name}} X", "Fx() + a", "Gx(b)", "Gx(Fx(), c)", "v1 + v2 * total", "Total + rate", "\"qty[1]\" + \"qty{1}\"",
 	"'abc", "\"abc", "/* x", "{{a", "{{#a}}x", "{{/a}}", "a +", "(a", "a)", "a[1", "f(", "1 2", "a,,b", ",", "\r\n", "\n\r", "\"x\",\"y\"\r\nz", "a;b", "😀", "a 😀 b", "{{ 😀 }}", "",
 }
 
@@ -237,15 +256,15 @@ func TestC05_Exhaustive(t *testing.T) {
 				optSets = []int{-1, 0}
 			}
 			for _, o := range optSets {
-				c05Run(rec, c05Case{kind, o, []c05Step{{a, -1, 0}, {b, -1, 0}}})
+				c05Run(rec, c05Case{kind, o, []c05Step{{a, -1, 0, 0}, {b, -1, 0, 1}}})
 				if isTok {
-					c05Run(rec, c05Case{kind, o, []c05Step{{a, 1, 2}, {b, -1, 0}}})
-					c05Run(rec, c05Case{kind, o, []c05Step{{a, -1, 0}, {b, -1, 3}}})
+					c05Run(rec, c05Case{kind, o, []c05Step{{a, 1, 2, 0}, {b, -1, 0, 0}}})
+					c05Run(rec, c05Case{kind, o, []c05Step{{a, -1, 0, 0}, {b, -1, 3, 0}}})
 				}
 			}
 			for k := 0; k < triples/len(c05Kinds); k++ {
 				third := c05Pool[int(splitmix(&x)%uint64(n))]
-				c05Run(rec, c05Case{kind, -1, []c05Step{{a, -1, 0}, {b, -1, 0}, {third, -1, 0}}})
+				c05Run(rec, c05Case{kind, -1, []c05Step{{a, -1, 0, 0}, {b, -1, 0, 1}, {third, -1, 0, 0}}})
 			}
 		}
 	})
@@ -265,13 +284,30 @@ func TestC05_RapidSM(t *testing.T) {
 		var steps []c05Step
 		for i := 0; i < n; i++ {
 			in := rapid.SampledFrom(c05Pool).Draw(rt, "input")
-			switch rapid.IntRange(0, 5).Draw(rt, "mut") {
+			switch rapid.IntRange(0, 6).Draw(rt, "mut") {
 			case 0:
 				in += rapid.SampledFrom(c05Pool).Draw(rt, "input2")
 			case 1:
 				in = genTokInput(rt, c04Alphabet, 12)
+			case 2:
+				// a variant of the previous input that differs in letter case only (or is identical)
+				if len(steps) > 0 {
+					var sb strings.Builder
+					for _, r := range steps[len(steps)-1].Input {
+						if r < 0x80 && rapid.IntRange(0, 3).Draw(rt, "flip") == 0 {
+							if strings.ToUpper(string(r)) != string(r) {
+								sb.WriteString(strings.ToUpper(string(r)))
+							} else {
+								sb.WriteString(strings.ToLower(string(r)))
+							}
+						} else {
+							sb.WriteRune(r)
+						}
+					}
+					in = sb.String()
+				}
 			}
-			st := c05Step{in, -1, 0}
+			st := c05Step{in, -1, 0, rapid.IntRange(0, 2).Draw(rt, "fn")}
 			if isTok {
 				if rapid.IntRange(0, 3).Draw(rt, "abort") == 0 {
 					st.Abort = rapid.IntRange(0, 4).Draw(rt, "k")
